@@ -1333,3 +1333,79 @@ def dop_gates(prog: Program, run: Run, R: str) -> None:
     else:
         run.violation(R, "DataObjectProperty.decode_from_pdu", "converts-other-value",
                       "the converted value is not the one extracted by the diag-coded type", d.loc)
+
+
+# ===================================================================== parse-side roles
+SCALE_FIELD_ROLE = {
+    # field of CompuScale -> the type its text is converted with: limits and the inverse value
+    # live in the scale's DOMAIN (the side the scale is selected by), the constant and the
+    # coefficients' results in its RANGE
+    "lower_limit": "domain_type", "upper_limit": "domain_type",
+    "compu_inverse_value": "domain_type",
+    "compu_const": "range_type", "compu_rational_coeffs": "range_type",
+}
+DIRECTION_TYPES = {
+    # COMPU-INTERNAL-TO-PHYS maps internal -> physical, COMPU-PHYS-TO-INTERNAL the other way
+    "CompuInternalToPhys": ("internal_type", "physical_type"),
+    "CompuPhysToInternal": ("physical_type", "internal_type"),
+}
+
+
+def scale_parse_roles(prog: Program, run: Run, R: str) -> None:
+    """The parser converts the text of each part of a COMPU-SCALE with the data type of the side
+    it belongs to (7.3.6.6): wrong types yield strings where numbers are expected, or floats
+    where integers are, only for descriptions whose two sides differ in type."""
+    f = prog.func("CompuScale.compuscale_from_et")
+    C = "CompuScale.compuscale_from_et"
+    rets = [r.value for r in walk_no_nested(f.node) if isinstance(r, ast.Return) and isinstance(
+        r.value, ast.Call)]
+    if not rets:
+        raise AnalysisError(f"{C}: constructor call not found")
+    kws = {k.arg: k.value for k in rets[0].keywords if k.arg}
+    for field, role in SCALE_FIELD_ROLE.items():
+        v = kws.get(field)
+        if v is None:
+            run.violation(R, C, f"field-{field}", f"`{field}` is not passed to CompuScale", f.loc)
+            continue
+        exprs = [v]
+        if isinstance(v, ast.Name):
+            exprs = [a.value for a in walk_no_nested(f.node) if isinstance(a, (
+                ast.Assign, ast.AnnAssign)) and getattr(a, "value", None) is not None and
+                ast.unparse(a.targets[0] if isinstance(a, ast.Assign) else a.target) == v.id]
+        used = set()
+        for e in exprs:
+            for c in ast.walk(e):
+                if isinstance(c, ast.Call):
+                    for k in c.keywords:
+                        if k.arg in ("data_type", "value_type") and isinstance(k.value, ast.Name):
+                            used.add(k.value.id)
+        if used == {role}:
+            run.ok(R, C, f"{field} is converted with {role}", f.loc)
+        else:
+            run.violation(R, C, f"type-of-{field}",
+                          f"`{field}` is converted with {sorted(used) or 'no'} type(s); it "
+                          f"belongs to the scale's {role.split('_')[0]} and must be converted "
+                          f"with {role}: for a description whose internal and physical types "
+                          "differ the parsed value has the wrong Python type and no longer "
+                          "converts back", f.loc)
+    for cls, (dom, rng) in DIRECTION_TYPES.items():
+        ci = prog.cls(cls)
+        g = prog.lookup(ci, "compu_internal_to_phys_from_et") or prog.lookup(
+            ci, "compu_phys_to_internal_from_et") or prog.lookup(ci, "from_et")
+        calls = []
+        for m in ci.methods.values():
+            for x in walk_no_nested(m.node):
+                if isinstance(x, ast.Call) and call_name(x) == "compuscale_from_et":
+                    calls.append((m, x))
+        if not calls:
+            raise AnalysisError(f"{cls}: compuscale_from_et call not found")
+        for m, x in calls:
+            got = {k.arg: ast.unparse(k.value) for k in x.keywords}
+            if got.get("domain_type") == dom and got.get("range_type") == rng:
+                run.ok(R, f"{cls}.{m.name}", f"scales parsed with domain={dom}, range={rng}",
+                       m.loc)
+            else:
+                run.violation(R, f"{cls}.{m.name}", "direction-types",
+                              f"scales are parsed with domain_type={got.get('domain_type')}, "
+                              f"range_type={got.get('range_type')}; {cls} maps {dom} to {rng}",
+                              m.loc)
